@@ -17,12 +17,19 @@
 //   - the committed sections are linearizable as a single read-then-write register (porcupine);
 //   - after all writers finished and everything drained: replicas rest on installed values, the newest
 //     value is what the committed sections produce (counter = number of committed increments, …);
-//   - progress, per message: an Abort from proposer S for version v processed by an acceptor holding an
-//     accepted pre-commit of a proposer Equal to S for v must leave the acceptor `initial`;
-//   - progress, global: a logical fixpoint (nothing in flight, no broadcast outstanding, every unfinished
-//     writer completes further attempts and not one request is sent) is a livelock; after a clean end no
-//     replica may still hold an accepted pre-commit;
-//   - bounded attempts: exceeding the PreCommit-call bound, or the internal deadline, is inconclusive.
+//   - progress, per message: an Abort from proposer S for version v processed by an acceptor that holds an
+//     accepted pre-commit of a proposer Equal to S for v, all of whose accepted PreCommits are older than the
+//     Abort (an Abort concerns the proposals its sender made before it), must leave the acceptor `initial`;
+//   - progress, global: a logical fixpoint (nothing in flight, no broadcast goroutine outstanding in any
+//     resource, states unchanged, every unfinished writer completes further attempts and not one request is
+//     sent) is a livelock, keyed by why the blocked writers' replicas hold what they hold; and once no
+//     archetype runs, nothing is in flight and no broadcast goroutine is left, no replica may still hold an
+//     accepted pre-commit (with message loss: of a proposal that was rejected or aborted);
+//   - a panic of the code under test is a violation keyed by its message;
+//   - bounded attempts: exceeding the bound on broadcast proposals, or the internal deadline, is inconclusive.
+//
+// Race batches run the race-detector build without hooks and without the transport wrapper; race reports are
+// evidence only (DESIGN E7).
 package main
 
 import (
@@ -49,7 +56,7 @@ type replayWitness struct {
 
 func genCases(r *common.Run) []Case {
 	rng := r.Rand("cases")
-	n := r.Pick(42, 800)
+	n := r.Pick(60, 800)
 	transports := []string{"local", "recv", "rpc"}
 	workloads := []string{"incr", "append", "shcounter", "reg"}
 	var cs []Case
@@ -187,6 +194,11 @@ func runCase(c Case, scratch string) outcome {
 	o.fs, o.st = analyse(c, o.evs)
 	if c.Race {
 		o.races = parseRaces(dir)
+		// race batches run without hooks: a behavioural finding there cannot be classified by cause, so it gets
+		// its own key and neither hides nor is hidden by the classified keys of hooked runs
+		for i := range o.fs {
+			o.fs[i].Key += ":unhooked-race-batch"
+		}
 	}
 	if !o.complete {
 		if m := panicLine.FindString(o.child.Output); m != "" && !o.child.TimedOut {
@@ -371,6 +383,7 @@ func main() {
 	for _, s := range rs {
 		raceList = append(raceList, map[string]any{"signature": s, "reports": raceSigs[s]})
 	}
+	_ = os.RemoveAll(scratch) // Finish exits the process: deferred calls do not run
 	r.Finish(common.Coverage{
 		Evaluations:        evaluations,
 		DistinctNontrivial: distinct.Len(),
@@ -410,6 +423,8 @@ func main() {
 		"a livelock verdict needs the logical fixpoint (no request in flight, no broadcast goroutine outstanding, no injected error ever, states unchanged, every unfinished writer completed further attempts, zero requests sent); exceeding the attempt bound or the internal deadline is only inconclusive",
 		"the harness transport injects at most ErrBudget errors on Commit/Abort requests per run because the code sleeps 1 s before each retry",
 		"porcupine result Unknown (20 s) is inconclusive",
+		"SenderTime, the code's own per-sender message stamp, identifies a proposer's proposals and orders the messages of that one proposer in the oracles (an Abort concerns the proposals its sender made before it); it is never compared with a constant",
+		"at the end of a run that did not finish by itself the harness asks the contexts to stop and waits a bounded while; the 'nothing will ever release this pre-commit' oracle is applied only if then no archetype runs, nothing is in flight and no broadcast goroutine is left",
 	})
 }
 
